@@ -8,9 +8,10 @@ import json, os, subprocess, sys, time, shutil
 ROOT = "/verif"
 def sh(cmd, **kw):
     return subprocess.run(cmd, shell=True, text=True, stdout=subprocess.PIPE, stderr=subprocess.STDOUT, **kw)
-ids = sys.argv[1:] or sorted(os.listdir(f"{ROOT}/seeded"))
+SEEDS = os.environ.get("SEED_DIR", "seeded")     # "benign": property-preserving changes (no check may alarm)
+ids = sys.argv[1:] or sorted(os.listdir(f"{ROOT}/{SEEDS}"))
 for d in ids:
-    sd = f"{ROOT}/seeded/{d}"
+    sd = f"{ROOT}/{SEEDS}/{d}"
     if not os.path.exists(f"{sd}/patch.diff"):
         continue
     pid = d[:3]
